@@ -528,17 +528,6 @@ func Run(o *core.Options) int {
 			return 0
 		}
 	}
-	x.sweep("main", main, ref.DefaultUniverse(), b.k, 1, []int{0}, 0, func(e *env, w *ref.World, idx int) {
-		if len(w.Tuples) == 0 {
-			return
-		}
-		wc := cancelSet[w.M]
-		if wc {
-			r.Count("worlds_with_cancel_clause", 1)
-		}
-		x.mainWorld(e, w, wc)
-	})
-
 	// nested set operators over one object (ref.FlatFamily), up to 4 tuples (6 in thorough)
 	{
 		kf := 4
@@ -556,6 +545,17 @@ func Run(o *core.Options) int {
 			x.mainWorld(e, w, false)
 		})
 	}
+
+	x.sweep("main", main, ref.DefaultUniverse(), b.k, 1, []int{0}, 0, func(e *env, w *ref.World, idx int) {
+		if len(w.Tuples) == 0 {
+			return
+		}
+		wc := cancelSet[w.M]
+		if wc {
+			r.Count("worlds_with_cancel_clause", 1)
+		}
+		x.mainWorld(e, w, wc)
+	})
 
 	var lim []*ref.Model
 	if b.limitStride < len(reps) {
